@@ -19,21 +19,25 @@
 EXTENDS RecOps, Json
 CONSTANTS TraceFile
 Trace == ndJsonDeserialize(TraceFile)
-VARIABLES l, nbeh, nbad, done, tk
-vars == <<l, nbeh, nbad, done, tk>>
-Init == l = 1 /\ nbeh = 0 /\ nbad = 0 /\ done = FALSE /\ tk = <<>>
+VARIABLES l, nbeh, nbad, nsoft, done, tk
+vars == <<l, nbeh, nbad, nsoft, done, tk>>
+Init == l = 1 /\ nbeh = 0 /\ nbad = 0 /\ nsoft = 0 /\ done = FALSE /\ tk = <<>>
 Ev == Trace[l]
-Report(v) == /\ nbad' = IF v # "ok" THEN nbad + 1 ELSE nbad
-             /\ (v # "ok" /\ nbad < 60 => PrintT(<<"TRACE-BAD", l, nbeh, v>>))
+\* the known finding and the merely counted clause must not use up the print budget of real failures
+Soft(v) == v \in {"K1_truncated_frame_after_its_first_packet_arrived_late", "N20_keyframe_flag_differs"}
+Report(v) == /\ nbad' = IF v # "ok" /\ ~Soft(v) THEN nbad + 1 ELSE nbad
+             /\ nsoft' = IF Soft(v) THEN nsoft + 1 ELSE nsoft
+             /\ (v # "ok" /\ ~Soft(v) /\ nbad < 200 => PrintT(<<"TRACE-BAD", l, nbeh, v>>))
+             /\ (Soft(v) /\ nsoft < 8 => PrintT(<<"TRACE-BAD", l, nbeh, v>>))
 First(vs) == LET b == SelectSeq(vs, LAMBDA x : x # "ok") IN IF b = <<>> THEN "ok" ELSE b[1]
 Abs(x) == IF x < 0 THEN -x ELSE x
 
-TNew == /\ Ev.ev = "New" /\ nbeh' = nbeh + 1 /\ tk' = <<>> /\ UNCHANGED nbad
+TNew == /\ Ev.ev = "New" /\ nbeh' = nbeh + 1 /\ tk' = <<>> /\ UNCHANGED <<nbad, nsoft>>
 TTrack == /\ Ev.ev = "track"
           /\ tk' = Append(tk, [kind |-> Ev.kind, codec |-> Ev.codec, clock |-> Ev.clock, frameof |-> Ev.frameof, frames |-> Ev.frames,
                               kf |-> {i \in 1..Len(Ev.frames) : Ev.frames[i].kf = 1 \/ Ev.kind = "audio"},
-                              last |-> 0, has |-> {}, cached |-> {}, lost |-> FALSE, lates |-> {}])
-          /\ UNCHANGED <<nbeh, nbad>>
+                              last |-> 0, has |-> {}, cached |-> {}, lost |-> FALSE, lostp |-> {}, lates |-> {}, fw |-> 0])
+          /\ UNCHANGED <<nbeh, nbad, nsoft>>
 TOp == /\ Ev.ev = "op"
        /\ LET t == Ev.t + 1
               s == tk[t]
@@ -41,11 +45,12 @@ TOp == /\ Ev.ev = "op"
           IN tk' = CASE Ev.op \in {"D", "L", "U"} ->
                         LET r == WriteF(s.last, s.has, p, s.cached) IN
                         [tk EXCEPT ![t] = [s EXCEPT !.last = r.last, !.has = r.has, !.cached = @ \cup {p},
-                                                    !.lates = IF Ev.op = "L" THEN @ \cup {p} ELSE @]]
+                                                    !.lates = IF Ev.op = "L" THEN @ \cup {p} ELSE @,
+                                                    !.fw = IF @ = 0 THEN p ELSE @]]
                      [] Ev.op = "S" -> [tk EXCEPT ![t] = [s EXCEPT !.cached = @ \cup {p}]]
-                     [] Ev.op = "X" -> [tk EXCEPT ![t] = [s EXCEPT !.lost = TRUE]]
+                     [] Ev.op = "X" -> [tk EXCEPT ![t] = [s EXCEPT !.lost = TRUE, !.lostp = @ \cup {p}]]
                      [] OTHER -> tk
-       /\ UNCHANGED <<nbeh, nbad>>
+       /\ UNCHANGED <<nbeh, nbad, nsoft>>
 
 \* the frame (1-based) of track t whose hash and length a sample carries, 0 if none
 FrameIdx(t, smp) == LET fs == tk[t].frames
@@ -108,7 +113,9 @@ TFiles ==
          hasvideo == \E t \in 1..Len(tk) : tk[t].kind = "video"
          r4 == \A t \in 1..Len(tk) :
                  (tk[t].kind = "video" \/ ~hasvideo) =>
-                    MustF(tk[t].frameof, tk[t].kf, tk[t].has, tk[t].lost) \subseteq Present(t, e.files)
+                    (MustF(tk[t].frameof, tk[t].kf, tk[t].has, tk[t].lost, tk[t].fw) \cup
+                       (IF tk[t].kind = "video" THEN MustAfterF(tk[t].frameof, tk[t].kf, tk[t].has, tk[t].lostp, tk[t].fw) ELSE {}))
+                      \subseteq Present(t, e.files)
          parsed == \A k \in 1..Len(e.files) : e.files[k].err = "" /\ Len(e.files[k].tracks) > 0
      IN Report(First(fileverdicts \o <<
           IF parsed /\ ~r4 THEN "C20_R4_recoverable_frame_after_the_first_keyframe_is_missing" ELSE "ok",
@@ -119,8 +126,8 @@ TPanic == /\ Ev.ev \in {"panic", "harness-error"} /\ Report(IF Ev.ev = "panic" T
 Step == /\ l <= Len(Trace) /\ (TNew \/ TTrack \/ TOp \/ TFiles \/ TPanic)
         /\ l' = l + 1 /\ UNCHANGED done
 Finish == /\ l = Len(Trace) + 1 /\ ~done /\ done' = TRUE
-          /\ PrintT(<<"TRACE-DONE", l - 1, nbeh, 0, IF nbad > 60 THEN 60 ELSE nbad>>)
-          /\ UNCHANGED <<l, nbeh, nbad, tk>>
+          /\ PrintT(<<"TRACE-DONE", l - 1, nbeh, 0, (IF nbad > 200 THEN 200 ELSE nbad) + (IF nsoft > 8 THEN 8 ELSE nsoft)>>)
+          /\ UNCHANGED <<l, nbeh, nbad, nsoft, tk>>
 Next == Step \/ Finish
 Spec == Init /\ [][Next]_vars
 =============================================================================
